@@ -178,6 +178,13 @@ impl<DBWT: Borrow<BWT>, DLess: Borrow<Less>, DOcc: Borrow<Occ>> SuffixArray
                 pos = self.less.borrow()[c as usize]
                     + self.occ.borrow().get(self.bwt.borrow(), pos - 1, c);
                 offset += 1;
+                // Verification hook (feature `verif-hooks`): the LF walk reaches a sampled row after
+                // fewer steps than there are rows, so it is bounded in logical steps.
+                #[cfg(feature = "verif-hooks")]
+                assert!(
+                    offset <= self.len(),
+                    "VERIF-HOOK sampled suffix array walk bound exceeded"
+                );
             }
         } else {
             None
